@@ -122,6 +122,25 @@ def gen_cases(tier, seed):
             s['exit'] = rng.choice(['shutdown', 'with'])
             s['plan'] = {'gate': {'match': rng.choice(['s3:GetObject', '/pp:job_complete']), 'phase': 'before', 'policy': pol}}
             cases.append(s)
+    # one preemption at every statement of the monitor / transfer-state / worker / submitter code: the nth thread reaching the
+    # line is held there until every other thread has run as far as it can (e.g. a worker between releasing the job-count lock
+    # and using the count it read)
+    from .. import yieldinj
+
+    lines = [l for l in yieldinj.all_lines(['processpool.py'])
+             if l[2].startswith(('TransferState.', 'TransferMonitor.', 'GetObjectWorker.', 'GetObjectSubmitter.', 'BaseProcessPoolDownloader', 'ProcessPoolDownloader.'))
+             and not l[2].endswith('__init__')]
+    wbases = [b for b in bases() if b['config']['workers'] >= 2 and max(t['size'] for t in b['transfers']) >= 20]
+    for line in lines:
+        core = line[2].startswith(('TransferState.', 'TransferMonitor.'))  # the shared state every worker goes through
+        for nth in ((0, 1, 2, 3) if core or not quick else (0, 1)):
+            for rep in range((2 if core else 1) if quick else 4):
+                s = copy.deepcopy(rng.choice(wbases))
+                s['seed'] = rng.randrange(1 << 30)
+                s['exit'] = rng.choice(['shutdown', 'with'])
+                s['family'] = 'window'
+                s['yield'] = {'p': 0.0, 'window': {'file': line[0], 'lineno': line[1], 'nth': nth, 'name': f'{line[0]}:{line[1]}:{line[2]}', 'wait': 0.2}}
+                cases.append(s)
     # real processes
     for i in range(6 if quick else 24):
         cases.append({'type': 'real', 'seed': rng.randrange(1 << 30), 'what': ['ok', 'fail', 'cancel', 'ok', 'kbi', 'fail'][i % 6],
@@ -201,7 +220,10 @@ def run_inproc(spec):
 
     inj = None
     if spec.get('yield'):
-        inj = yieldinj.Injector(p=spec['yield']['p'], seed=spec.get('seed', 0), files=['processpool.py']).install()
+        w = spec['yield'].get('window')
+        wins = [{'file': w['file'], 'line': w['lineno'], 'nth': w.get('nth', 0), 'action': 'pause', 'name': w.get('name'),
+                 'wait': w.get('wait', 0.2)}] if w else ()
+        inj = yieldinj.Injector(p=spec['yield'].get('p', 0.0), seed=spec.get('seed', 0), files=['processpool.py'], windows=wins).install()
     try:
         obs = run_spec(spec)
     finally:
